@@ -136,6 +136,14 @@ let czar (w : string array) =
   let gs = czar_gather fgrp (grids fl 0.0 w.(4)) in
   Printf.printf "Z cnt=%s sum=%s\n" (dump ns string_of_int gc) (dump ns hex gs)
 
+(* OPES <n> c,c,..;c,c,..  (one list of contributions per round, rank order; tokens are kept as strings)
+   -> the kernel list of every walker, walkers separated by ; *)
+let opes (w : string array) =
+  let n = int_of_string w.(1) in
+  let rounds = if Array.length w > 2 then List.map (split ',') (split ';' w.(2)) else [] in
+  let ws = opes_run rounds (nat_of_int n) in
+  Printf.printf "O %s\n" (String.concat ";" (List.map (fun l -> if l = [] then "-" else String.concat "," l) ws))
+
 let () =
   try
     while true do
@@ -146,6 +154,7 @@ let () =
          | "ABF" -> abf w
          | "META" -> meta w
          | "CZAR" -> czar w
+         | "OPES" -> opes w
          | _ -> print_endline "?")
     done
   with End_of_file -> ()
